@@ -867,6 +867,26 @@ fn dump<'tcx>(tcx: TyCtxt<'tcx>, dir: &str) {
             if is_fn { tcx.optimized_mir(did) } else { tcx.mir_for_ctfe(did) };
         o.push(("body", cx.body(ldid, body)));
         fns.push(J::Obj(o));
+        // promoted constants of this body (evaluated at compile time; recorded for rules that
+        // inspect constant configuration, e.g. builder chains in `const` items)
+        if !tcx.is_closure_like(did) || true {
+            let proms = tcx.promoted_mir(did);
+            for (pi, pb) in proms.iter_enumerated() {
+                let ppath = format!("{}::promoted[{}]", cx.path(did), pi.index());
+                let pdp = format!("{}::promoted[{}]", cx.dp(did), pi.index());
+                let po: Vec<(&'static str, J)> = vec![
+                    ("path", J::from(ppath)),
+                    ("dp", J::from(pdp)),
+                    ("kind", J::from("Promoted")),
+                    ("file", J::from(cx.file(tcx.def_span(did)))),
+                    ("hsp", cx.span(tcx.def_span(did))),
+                    ("exp", J::from(false)),
+                    ("root", J::from(cx.path(did))),
+                    ("body", cx.body(ldid, pb)),
+                ];
+                fns.push(J::Obj(po));
+            }
+        }
 
         // HIR matches (only in the typeck root's tables; closures share them)
         let tr = tcx.typeck(ldid);
